@@ -1,0 +1,10 @@
+//go:build verif
+
+// Contracts for package regex, checked by /verif (govc). Comment-only file.
+package regex
+
+// At call sites with a constant pattern govc gives Match its meaning directly (membership + named groups of a
+// decomposition along the pattern, A9); the 12-line body over FindStringSubmatch/SubexpNames is trusted to implement that.
+//@ func Match
+//@   property C12
+//@   trusted "wrapper over regexp.FindStringSubmatch / SubexpNames (external); match[i] is in range because FindStringSubmatch returns NumSubexp()+1 entries on a match (A9)"
